@@ -137,6 +137,10 @@ class DatabaseService(Service, discriminator="database-service"):
             )
             return False
 
+        # a copy left in downloads by an earlier restore must not be mistaken for what this request delivers
+        if self.file_system.get_file(folder_name="downloads", file_name="database.db"):
+            self.file_system.delete_file(folder_name="downloads", file_name="database.db")
+
         # retrieve backup file from backup server
         response = ftp_client_service.request_file(
             src_folder_name=str(self.uuid),
@@ -146,7 +150,8 @@ class DatabaseService(Service, discriminator="database-service"):
             dest_ip_address=self.backup_server_ip,
         )
 
-        if not response:
+        # the transfer only took place if the backup file has actually arrived
+        if not response or self.file_system.get_file(folder_name="downloads", file_name="database.db") is None:
             self.sys_log.error("Unable to restore database backup.")
             return False
 
